@@ -494,7 +494,7 @@ def gen_invivo_ops(rng, n_modules=None, size=None, p_history=0.35, subs=("run", 
     size = size or rng.choice([2, 4, 6])
     files = projgen.gen_project(rng, n_modules, size)
     lang = "python"
-    if rng.random() < 0.4:
+    if rng.random() < 0.4 or os.environ.get("VERIF_INVIVO_BIG"):
         # files from the repository's own corpora in other languages (the default handler table is per language)
         from sim.core import REPO_DIR
         sub, ext, lang_ = rng.choice([("dataflows/javascript", ".js", "javascript"), ("lang_parser/javascript", ".js", "javascript"),
@@ -506,13 +506,16 @@ def gen_invivo_ops(rng, n_modules=None, size=None, p_history=0.35, subs=("run", 
                                       ("import/python", ".py", "python"), ("lang_parser/python", ".py", "python"),
                                       ("motivativing_examples", ".py", "python"), ("lang_parser/ruby", ".rb", "ruby"),
                                       ("lang_parser/smali", ".smali", "smali"), ("real_cases", ".java", "java"), ("dataflows/c", ".c", "c")])
+        big = bool(os.environ.get("VERIF_INVIVO_BIG"))      # exploration aid (never set by the registered commands): bigger inputs
+        if big:
+            sub, ext, lang_ = "real_cases", ".py", "python"
         cands = []
         for root, dirs, fns in os.walk(os.path.join(REPO_DIR, "tests", sub)):
             dirs.sort()
-            cands += [os.path.join(root, f) for f in sorted(fns) if f.endswith(ext) and os.path.getsize(os.path.join(root, f)) < 5000]
+            cands += [os.path.join(root, f) for f in sorted(fns) if f.endswith(ext) and os.path.getsize(os.path.join(root, f)) < (30000 if big else 5000)]
         if cands:
             files = {}
-            for p in rng.sample(cands, min(len(cands), rng.choice([1, 2, 3]))):
+            for p in rng.sample(cands, min(len(cands), rng.choice([4, 6, 8]) if big else rng.choice([1, 2, 3]))):
                 try:
                     files[os.path.basename(p)] = open(p, encoding="utf-8", errors="replace").read()
                 except OSError:
